@@ -6,11 +6,6 @@ Open Scope char_scope.
 
 Definition slash_free (s : bytes) : bool := forallb (fun c => negb (Ascii.eqb c "/")) s.
 
-Definition nonempty_b (s : bytes) : bool := match s with [] => false | _ => true end.
-
-(* a path element that remove_dot_segments leaves alone *)
-Definition real_seg (s : bytes) : bool := negb (seg_dot s) && negb (seg_dotdot s) && nonempty_b s.
-
 (* ------------------------------------------------------------ split / join *)
 
 Lemma split_seg_acc s : forall cur,
